@@ -1,13 +1,18 @@
 """C11 — the pattern limit bounds expansion work in every API, default 1000.
 
 Proof  : Properties/C11.lean — for each of the three loops (translate, compile_pattern,
-         Glob._iter_patterns/_parse_patterns): raises / ok / work / zero-disables, over abstract
-         bracex / split / per-pattern compiler; C11_defaults over the generated signatures.
-         Partial where the tree has genuine defects (D11 exclude budget, D22 glob budget) + witnesses.
+         Glob._iter_patterns/_parse_patterns): raises / ok (= the result under limit 0) / work /
+         zero-disables, FULL statements for every exclude= (the exclusion patterns and the inclusion
+         patterns share ONE limit), over abstract bracex / split / per-pattern compiler; C11_defaults over
+         the generated signatures; `D11_*_fixed_witness` / `D22_fixed_witness` of the two repaired defects
+         (D11 exclude budget, D22 glob budget); `negative_limit_witness` (limit < 0: not in the property).
 Tie    : K4 — every entry point x L in {1,2,3,5,32,33,1000,1001} x pattern sets with known
-         expansion counts around the boundary: outcome, number of items pulled from bracex, regex
-         texts, compared with the Lean loops; generated defaults.
-Search : the same calls against the property itself (raise iff / work bound / limit 0 / default).
+         expansion counts around the boundary: outcome, number of items pulled from bracex, the
+         arguments of every bracex call, regex texts, compared with the Lean loops; limit 0 and
+         negative limits with exclude= and several brace patterns; generated defaults.
+Search : the same calls against the property itself (raise iff / work bound / limit 0 / default);
+         the witnesses of the repaired D11 / D22 replayed on every entry point of their loops —
+         a reproduction is a VIOLATION (nothing is attributed to a finding any more).
 """
 from __future__ import annotations
 import warnings
@@ -21,6 +26,24 @@ warnings.simplefilter('ignore')
 TARGETS = ['WcModel.Properties.C11']
 LIMITS = [1, 2, 3, 5, 32, 33, 1000, 1001]
 HUGE = 100000000
+
+# the recorded witnesses of the repaired defects: (id, loops, patterns, exclude, limit, outcome the property demands)
+FIXED_WITNESSES = [
+    ('KF-D11', ('tr', 'cp'), ['{a,b,c,d,e,f,g,h}'], ['x', 'y', 'z'], 3, 'PatternLimit'),     # 11 patterns, limit 3
+    ('KF-D11', ('tr', 'cp'), ['a', '{b,c}'], ['x'], 0, 'ok'),                                # limit=0 disables
+    ('KF-D11', ('tr', 'cp'), ['{a,b,c}', '{d,e}', '{f,g,h,i}'], ['{x,y}', '{z,w}'], 0, 'ok'),
+    ('KF-D11', ('tr', 'cp'), ['a', 'b', 'c'], ['x', 'y', 'z'], 3, 'PatternLimit'),           # budget 0, no brace at all
+    ('KF-D11', ('tr', 'cp'), ['a'], ['x', 'y', 'z', 'w'], 3, 'PatternLimit'),                # budget negative
+    ('KF-D11', ('tr', 'cp'), ['{a,b,c,d,e,f,g,h}'], ['x', 'y', 'z'], 11, 'ok'),              # exactly the limit
+    ('KF-D11', ('tr', 'cp'), ['{a,b,c,d,e,f,g,h}'], ['x', 'y', 'z'], 10, 'PatternLimit'),
+    ('KF-D22', ('gl',), ['a', 'b', 'c'], ['x', 'y', 'z'], 3, 'PatternLimit'),                # 6 patterns, limit 3
+    ('KF-D22', ('gl',), ['a', 'b', 'c'], ['x', 'y', 'z'], 5, 'PatternLimit'),
+    ('KF-D22', ('gl',), ['a', 'b', 'c'], ['x', 'y', 'z'], 6, 'ok'),
+    ('KF-D22', ('gl',), ['{a,b,c}'], ['{x,y,z}'], 5, 'PatternLimit'),
+    ('KF-D22', ('gl',), ['{a,b,c}'], ['{x,y,z}'], 0, 'ok'),
+]
+FIXED_SITE = {'KF-D11': 'wcmatch/_wcparse.py:621-635 (translate), 710-723 (compile_pattern): used / total / current_limit',
+              'KF-D22': 'wcmatch/glob.py:482-500 (self.total shared by the two _iter_patterns calls)'}
 
 
 def mk(n: int, style: str, tag: str) -> str:
@@ -120,7 +143,7 @@ def scenarios(w: K.World, tier: str, R):
             yield dict(api=api, pats=[huge], excl=None, flags=BR, limit=L, isb=False, known=known, note='huge')
             if api.name != 'wcmatch.WcMatch' and L >= 3:
                 yield dict(api=api, pats=['a', 'a' + huge], excl=['x'], flags=BR, limit=L, isb=False, known=known, note='huge+excl')
-            # D11 territory: as many exclusions as the limit (small expansions only!)
+            # (was D11 territory) as many exclusions as the limit (small expansions only!)
             if api.name != 'wcmatch.WcMatch' and L <= 33:
                 yield dict(api=api, pats=[mk(L + 5, 'range', 'i')], excl=[f'x{i}' for i in range(L)], flags=BR, limit=L,
                            isb=False, known=None, note='excl=L')
@@ -162,6 +185,22 @@ def scenarios(w: K.World, tier: str, R):
         if api.name != 'wcmatch.WcMatch':
             yield dict(api=api, pats=['a', mk(3, 'set', 'z')], excl=['x'], flags=BR, limit=0, isb=False, known=None, note='limit0+excl')
             yield dict(api=api, pats=[mk(3, 'set', 'z')], excl=['x'], flags=BR, limit=0, isb=False, known=None, note='limit0+excl-single')
+            # limit = 0 / a negative limit with exclude= AND several brace patterns on both sides
+            zb = [mk(3, 'set', 'z'), mk(4, 'range', 'y'), mk(2, 'set', 'v')]
+            yield dict(api=api, pats=zb, excl=[mk(2, 'set', 'x'), mk(3, 'range', 'w')], flags=BR, limit=0, isb=False, known=None,
+                       note='limit0+excl-braces')
+            yield dict(api=api, pats=zb, excl=None, flags=BR, limit=0, isb=False, known=None, note='limit0-braces')
+            yield dict(api=api, pats=zb, excl=['x', 'x', 'y'], flags=BR, limit=0, isb=False, known=None, note='limit0+excl-dups')
+            # negative limits (not in the property: tie only — one brace pattern passes, a second one hits the clamp)
+            for NL in (-1, -3):
+                yield dict(api=api, pats=['a', mk(2, 'set', 'n')], excl=None, flags=BR, limit=NL, isb=False, known=None,
+                           note='neg-limit')
+                yield dict(api=api, pats=[mk(8, 'range', 'n')], excl=['x'], flags=BR, limit=NL, isb=False, known=None,
+                           note='neg-limit+excl')
+                yield dict(api=api, pats=['a', mk(2, 'set', 'n')], excl=['x', mk(2, 'set', 'm')], flags=BR, limit=NL, isb=False,
+                           known=None, note='neg-limit+excl-braces')
+        else:
+            yield dict(api=api, pats=[mk(3, 'set', 'n')], excl=None, flags=BR, limit=-1, isb=False, known=None, note='neg-limit')
         # the default
         for T in (999, 1000, 1001):
             yield dict(api=api, pats=[mk(T, 'range', 'd')], excl=None, flags=BR, limit=None, isb=False, known=None, note=f'default T={T}')
@@ -199,12 +238,17 @@ def verdict(w: K.World, sc: dict, real: dict):
         if raised:
             return False, 'limit=0 must disable the check, but PatternLimitException was raised', facts
         return True, '', facts
+    if L < 0:
+        return True, '', facts      # the property says nothing about negative limits (Properties/C11.negative_limit_witness)
     if distinct > L and not raised:
         return False, f'{distinct} distinct patterns after expansion > limit {L}, but no PatternLimitException', facts
     if total <= L and raised:
         return False, f'total expansion count {total} <= limit {L}, but PatternLimitException was raised', facts
-    if sc['flags'] & w.F.BRACE and real['pulls'] > L + 1 + (tot_e - dis_e):
-        return False, f"{real['pulls']} items pulled from bracex, more than L+1 = {L + 1}", facts
+    # translate / compile_pattern: the exclude= call counts its duplicates, the main loop goes on from the number of
+    # distinct exclusions (C11_work_translate / _compile); Glob counts both lists in one total: L + 1 (C11_work_glob)
+    slack = 0 if api.loop == 'gl' else tot_e - dis_e
+    if sc['flags'] & w.F.BRACE and real['pulls'] > L + 1 + slack:
+        return False, f"{real['pulls']} items pulled from bracex, more than L+1 = {L + 1}" + (f' (+{slack} duplicate exclusions)' if slack else ''), facts
     # bounded work: bracex treats limit=0 (or negative) as "no limit", so under a positive limit every
     # bracex.iexpand call must get a budget in 1..L (Properties/C11.C11_brace_budget)
     if sc['flags'] & w.F.BRACE:
@@ -216,25 +260,8 @@ def verdict(w: K.World, sc: dict, real: dict):
     return True, '', facts
 
 
-def attribute(sc: dict, facts: dict, agree: bool) -> str | None:
-    """known finding by call site + trigger (only if the code does what the model-at-code does)"""
-    if not agree:
-        return None
-    return trigger(sc, facts)
-
-
-def trigger(sc: dict, facts: dict) -> str | None:
-    """does the call lie in the trigger region of a listed finding (call site + quirk condition)?"""
-    if sc['excl'] is None:
-        return None
-    api = sc['api']
-    L = facts['L']
-    if api.loop in ('tr', 'cp'):
-        if L == 0 or L - facts['excl_distinct'] <= 0:
-            return 'KF-D11'
-    if api.loop == 'gl' and L > 0:
-        return 'KF-D22'
-    return None
+# (KF-D11 — `limit -= len(negative)` in translate / compile_pattern — and KF-D22 — `total` re-initialised for Glob's
+#  exclusion list — are repaired: a failing input with exclude= is no longer attributed to anything.)
 
 
 def run(ck: Check) -> int:
@@ -308,30 +335,51 @@ def run(ck: Check) -> int:
                    'count <= L => none; items pulled from bracex <= L+1 (+ duplicates inside exclude=); every bracex.iexpand call gets a '
                    'budget in 1..L (never 0 = unlimited); limit=0 => none; default = 1000')
         judged = []
-        for sc, real, agree in records:
+        for sc, real, _agree in records:
             sr.evaluations += 1
             ok, what, facts = verdict(w, sc, real)
             tag = 'holds' if ok else 'FAILS'
             sr.histogram[tag] = sr.histogram.get(tag, 0) + 1
-            judged.append((ok, what, facts, sc, real, agree))
-        # report failing inputs outside every known trigger region first (the most telling ones)
-        judged.sort(key=lambda j: (j[0], trigger(j[3], j[2]) is not None))
-        for ok, what, facts, sc, real, agree in judged:
+            judged.append((ok, what, facts, sc, real))
+        for ok, what, facts, sc, real in judged:
             if not ok:
-                kid = attribute(sc, facts, agree)
                 ck.report(Failing(f"{sc['api'].name}: {what}",
                                   {'api': sc['api'].name, 'patterns': [p[:80] for p in sc['pats']][:6],
                                    'exclude': sc['excl'] and [p[:80] for p in sc['excl']][:6], 'flags': sc['flags'],
                                    'limit': sc['limit'], 'bytes': sc['isb'], 'facts': facts},
                                   'see what', f"{real['kind']} pulls={real['pulls']}",
-                                  site='wcmatch/_wcparse.py:622-625,709-712; wcmatch/glob.py:482-515'), kid)
-                if kid:
-                    sr.histogram['attributed:' + kid] = sr.histogram.get('attributed:' + kid, 0) + 1
+                                  site='wcmatch/_wcparse.py:621-652,710-740; wcmatch/glob.py:482-515'))
             elif len(sr.samples) < 3 and real['kind'] == 'PatternLimit':
                 sr.samples.append({'api': sc['api'].name, 'limit': sc['limit'], 'facts': facts, 'outcome': real['kind'],
                                    'pulls': real['pulls']})
         sr.distinct = len(records)
     ck.search('limit-property', s_prop)
+
+    # repaired defects: their old witnesses must NOT reproduce (a reproduction is an unattributed violation)
+    def s_fixed(sr):
+        sr.note = ('the witnesses of the repaired D11 (translate / compile_pattern: exclude= used up the budget — no exception for '
+                   '3 + 8 patterns under limit 3; limit=0 raised) and D22 (Glob counted the two lists separately), and the '
+                   'boundary of the shared limit around them, replayed on the real code through EVERY entry point of their loop '
+                   '(str and bytes): outcome demanded by the property, and no bracex call with a budget outside 1..L')
+        for kid, loops, pats, excl, L, want in FIXED_WITNESSES:
+            for api in K.APIS:
+                if api.loop not in loops or api.name == 'wcmatch.WcMatch':
+                    continue
+                mod = {'fnmatch': w.F, 'glob': w.G, 'pathlib': w.G}[api.module]
+                for isb in ((False, True) if api.module != 'pathlib' else (False,)):
+                    real = w.call(api, pats, excl, mod.BRACE, L, isb)
+                    sr.evaluations += 1
+                    bad_arg = [(t, a) for t, a in (real.get('bcalls') or []) if L > 0 and not (1 <= a <= L)]
+                    ok = real['kind'] == want and not bad_arg
+                    key = f'{kid} fixed witness ' + ('holds' if ok else 'REPRODUCED: the defect is back')
+                    sr.histogram[key] = sr.histogram.get(key, 0) + 1
+                    if not ok:
+                        ck.report(Failing(f'repaired defect {kid} is back: {api.name}({pats}, exclude={excl}, BRACE, limit={L}) -> '
+                                          f"{real['kind']}" + (f', bracex budgets {bad_arg}' if bad_arg else ''),
+                                          {'api': api.name, 'patterns': pats, 'exclude': excl, 'flags': mod.BRACE, 'limit': L,
+                                           'bytes': isb}, want, f"{real['kind']} pulls={real['pulls']}", FIXED_SITE[kid]), None)
+        sr.distinct = sr.evaluations
+    ck.search('fixed-witnesses', s_fixed)
     if drv is not None:
         drv.close()
     w.close()
